@@ -51,6 +51,7 @@ type c01In struct {
 	Via  string   `json:"via,omitempty"` // api | routes
 	S    Bs       `json:"s,omitempty"`
 	S2   Bs       `json:"s2,omitempty"`
+	Fam  string   `json:"fam,omitempty"` // generator family (distribution report only)
 }
 
 type c01Param struct {
@@ -95,7 +96,9 @@ func (c01) Rule() string {
 		"~20 requests per document written as raw request lines and parsed by http.ReadRequest: instantiations of a random operation with values from a corpus holding " +
 		"%2F %25 : * # ; = . .. e-acute { } + ~ and sibling literals, then //, /./, /x/../, leading /../, trailing /, dropped/extra segment, query string; method = registered, other verb, " +
 		"case-mangled or unknown; plus targets handed to Router.Lookup directly (invalid escapes, relative paths, empty). Half of the documents are served by Context.APIHandler, half by " +
-		"Context.RoutesHandler; MatchedRouteFrom is read by a Builder middleware. clean/join/unesc cases compare the three library models with path.Clean, path.Join, url.PathUnescape. " +
+		"Context.RoutesHandler; MatchedRouteFrom is read by a Builder middleware; every MatchedRoute answered by Router.Lookup is kept and compared again after the last request of the document. " +
+		"One generated case in eight (by case index) is a 'relnames' document: templates whose placeholder names are prefixes / suffixes / infixes of one another (id idx id2, item itemId, a ab abc, Id, d, tem ...) " +
+		"in both orders, with literal segments spelled like the names, one in three with such a placeholder inside a composite segment (requested with strict instantiations only); two enumerated documents of that kind. clean/join/unesc cases compare the three library models with path.Clean, path.Join, url.PathUnescape. " +
 		"Non-trivial: a document with a parameterised template where at least one request ran a handler with parameters and at least one was answered 405 or 404."
 }
 
@@ -120,7 +123,7 @@ func (c01) Enumerate(tier string) []any {
 	}
 	// placeholder names that are prefixes / suffixes / infixes of one another, in both orders
 	mk := func(base, via string, ops []string, targets []string) c01In {
-		in := c01In{Kind: "spec", Base: Bs(base), Via: via}
+		in := c01In{Kind: "spec", Base: Bs(base), Via: via, Fam: "relnames"}
 		for _, o := range ops {
 			f := strings.SplitN(o, " ", 2)
 			in.Ops = append(in.Ops, c01Op{M: Bs(f[0]), T: Bs(f[1])})
@@ -443,7 +446,9 @@ func c01GenRelTemplates(r *rand.Rand, composite bool) []string {
 
 func c01GenSpecRel(r *rand.Rand) c01In {
 	composite := r.Intn(3) == 0
-	return c01SpecFrom(r, c01GenRelTemplates(r, composite), composite)
+	in := c01SpecFrom(r, c01GenRelTemplates(r, composite), composite)
+	in.Fam = "relnames"
+	return in
 }
 
 // strict: composite segments are only instantiated strictly (every placeholder a non-empty text free of
@@ -675,6 +680,22 @@ func c01RunSpec(in c01In, obs *c01Obs) {
 	}
 	router := middleware.DefaultRouter(doc, c01rapi{api})
 
+	// answers of Router.Lookup retained across the later requests of the document and inspected again at the end:
+	// a matched route belongs to its request for as long as the request is being served
+	type c01Kept struct {
+		at int
+		mr *middleware.MatchedRoute
+	}
+	var kept []c01Kept
+	defer func() {
+		for _, k := range kept {
+			ro := &obs.Reqs[k.at]
+			if ro.LPanic == "" && (string(ro.Pattern) != k.mr.PathPattern || !c01SameParams(ro.Params, c01RouteParams(k.mr.Params))) {
+				ro.LPanic = "the MatchedRoute of this request changed while later requests were routed"
+			}
+		}
+	}()
+
 	for _, q := range in.Reqs {
 		var ro c01ReqObs
 		ro.Ran = -1
@@ -705,6 +726,7 @@ func c01RunSpec(in c01In, obs *c01Obs) {
 		if mr != nil {
 			ro.Found, ro.Pattern, ro.Params = true, Bs(mr.PathPattern), c01RouteParams(mr.Params)
 			ro.Op = opIndex[mr.Operation.ID]
+			kept = append(kept, c01Kept{len(obs.Reqs), mr})
 		}
 		if p, msg := recoverTo(func() {
 			others := router.OtherMethods(string(ro.Method), string(ro.Esc))
@@ -972,7 +994,7 @@ func (c01) Category(inAny any, obsAny any) (string, bool) {
 		}
 		return ""
 	}
-	cat := fmt.Sprintf("spec base=%q tpl=%s via=%s%s [%s%s%s%s%s%s%s%s]", string(in.Base), nt, in.Via, flag(comp, " composite"),
+	cat := fmt.Sprintf("spec base=%q tpl=%s via=%s%s%s [%s%s%s%s%s%s%s%s]", string(in.Base), nt, in.Via, flag(comp, " composite"), flag(in.Fam != "", " "+in.Fam),
 		flag(ranP, "run "), flag(r405, "405 "), flag(r404, "404 "), flag(r422, "422 "), flag(pan, "PANIC "), flag(enc, "%2F/%25 "), flag(caseM, "case "), flag(dots, "dots"))
 	return cat, param && ranP && (r405 || r404)
 }
